@@ -77,6 +77,7 @@ Detail(pre, e, c) ==
              Imm(d) == CHOOSE x \in SK(d) : \A y \in SK(d) : pre.del[y].n <= pre.del[x].n
          IN IF \A d \in O : ~OutDef(pre, Imm(d), e.t1) THEN "immediate-predecessor-completed"
             ELSE "immediate-predecessor-outstanding"
+    [] e.op = "Converged" -> ToJson(<<e.left.topics > 0, e.left.subs > 0, e.left.msgs > 0, e.left.del > 0, e.left.snaps > 0>>)
     [] e.op \in {"List", "Get"} -> e.kind
     [] e.op = "Failed" -> ToJson(<<e.of, e.kind, e.mode>>)
     [] OTHER -> ""
